@@ -99,6 +99,18 @@ pub fn drive(ver: Ver, input: &[u8], cuts: &[usize], max_size: u32, min_chunk: u
                             }
                         }
                     }
+                    // a Remaining Length whose fourth byte still has the continuation bit is malformed whatever follows
+                    if in_publish.is_none() {
+                        if let Err(DecErr::BadVarint) = fr {
+                            out.push(fnd(
+                                "accepts-malformed",
+                                format!("{} decoder: Remaining Length longer than four bytes", vname(ver)),
+                                format!("the fixed header {} has a Remaining Length of more than four bytes but decode answered need-more", rf::hex(&input[start..fed.min(start + 6)])),
+                                inp(),
+                            ));
+                            break 'outer;
+                        }
+                    }
                     // oversize frames must be rejected as soon as the fixed header is complete
                     if in_publish.is_none() {
                         if let Ok((_, _, rl)) = fr {
@@ -560,6 +572,40 @@ pub fn run(tier: Tier) -> i32 {
                 }
                 if first == 0x10 {
                     drive_sniff(&input, &[], out);
+                }
+            },
+            &findings,
+            &stats,
+        );
+    }
+
+    // (a'') fixed headers whose Remaining Length runs to four and five bytes: every first byte x four length bytes over
+    // {80, 81, ff, 00, 01, 7f} (x a fifth byte where the fourth continues), delivered whole and byte by byte
+    {
+        let lb = [0x80u8, 0x81, 0xff, 0x00, 0x01, 0x7f];
+        par_for(
+            256 * 6 * 6 * 6 * 6,
+            1 << 10,
+            |i, out, st| {
+                let first = (i / 1296) as u8;
+                let mut k = i % 1296;
+                let mut input = vec![first];
+                for _ in 0..4 {
+                    input.push(lb[(k % 6) as usize]);
+                    k /= 6;
+                }
+                let tails: &[u8] = if input[1..].iter().all(|b| b & 0x80 != 0) { &[0x00, 0x01, 0x80] } else { &[0x00] };
+                for t in tails {
+                    let mut inp2 = input.clone();
+                    inp2.push(*t);
+                    inp2.extend_from_slice(&[0x00, 0x00]);
+                    inputs.fetch_add(1, Ordering::Relaxed);
+                    let bytewise: Vec<usize> = (1..inp2.len()).collect();
+                    for ver in [Ver::V3, Ver::V5] {
+                        drive(ver, &inp2, &[], 0, 0, out, st);
+                        drive(ver, &inp2, &bytewise, 0, 0, out, st);
+                        evals.fetch_add(2, Ordering::Relaxed);
+                    }
                 }
             },
             &findings,
